@@ -127,7 +127,36 @@ STMTS = [
     ('SELECT count(*), sum(a) FROM #t WHERE a > %s', [(1,), (100,)]),
     ('SELECT b FROM #t ORDER BY a * %s', [(1,), (-1,)]),
     ('SELECT a FROM #t', [None, None]),
+    # subquery tables with different output names: a later statement must not see the columns of an earlier subquery
+    ('SELECT * FROM (SELECT a AS x FROM #t WHERE a > %s)', [(0,), (1,)]),
+    ('SELECT * FROM (SELECT a AS y, b AS z FROM #t WHERE a > %s)', [(0,), (2,)]),
+    ('SELECT x FROM (SELECT a AS x, b AS y FROM #t)', [None]),
+    # constants that are equal but not identical (Decimal 7.1 / 7.10, int 1 / TRUE): folding one must not answer for the other
+    ('SELECT str(%s), a FROM #t LIMIT 1', [(Decimal('7.1'),), (Decimal('7.10'),), (Decimal('-0'),), (Decimal('0'),)]),
+    ('SELECT str(2.5), abs(2.5) FROM #t LIMIT 1', [None]),
+    ('SELECT str(2.50), abs(2.50) FROM #t LIMIT 1', [None]),
 ]
+_PRISTINE = {}
+
+
+def _pristine_one(job):
+    """the result of one statement in a process that has executed nothing else (spawned, one task per process)"""
+    si, pi = job
+    text, plist = STMTS[si]
+    try:
+        return (si, pi), ('ok', conn().execute(text, plist[pi]).fetchall())
+    except Exception as e:  # noqa
+        return (si, pi), ('error', f'{type(e).__name__}: {e}')
+
+
+def pristine_results():
+    """expected results computed in pristine processes: state that survives an execution anywhere in a process (class-level
+    registries, memo caches) would otherwise contaminate the fresh connection the expected value comes from, too"""
+    import multiprocessing as mp
+    jobs = [(si, pi) for si, (t, pl) in enumerate(STMTS) for pi in range(len(pl))]
+    with mp.get_context('spawn').Pool(min(16, len(jobs)), maxtasksperchild=1) as pool:
+        for key, val in pool.map(_pristine_one, jobs, chunksize=1):
+            _PRISTINE[key] = val
 
 
 def check_history(hist):
@@ -138,11 +167,16 @@ def check_history(hist):
     for step, (si, pi, mode) in enumerate(hist):
         text, plist = STMTS[si]
         params = plist[pi]
-        fresh = conn()
-        try:
-            exp = fresh.execute(text, params).fetchall()
-        except Exception as e:
-            return ('harness: fresh single execution runs', {'history': hist}, f'{type(e).__name__}: {e}', None)
+        if (si, pi) in _PRISTINE:
+            kind, exp = _PRISTINE[(si, pi)]
+            if kind != 'ok':
+                return ('harness: single execution in a pristine process runs', {'history': hist}, exp, None)
+        else:
+            fresh = conn()
+            try:
+                exp = fresh.execute(text, params).fetchall()
+            except Exception as e:
+                return ('harness: fresh single execution runs', {'history': hist}, f'{type(e).__name__}: {e}', None)
         try:
             if mode == 'ast':
                 if si not in asts:
@@ -250,6 +284,7 @@ def run(tier, seed):
         res.case(('fold', e), {'fold': e})
         if bad:
             res.violation('h09:fold:' + e, bad[0], bad[1], bad[2], bad[3])
+    pristine_results()
     steps = [(si, pi, mode) for si, (t, pl) in enumerate(STMTS) for pi in range(len(pl)) for mode in ('text', 'ast')]
     hists = [[s] for s in steps] + [list(h) for h in itertools.product(steps, repeat=2)]
     rng = random.Random(seed)
